@@ -181,8 +181,8 @@ def run_case(ctx, res, case, lines, post):
         for m in range(nin):
             got = [float(np.asarray(jac[o]).reshape(len(pts), -1)[k, m]) for o in out_names]
             kinds_m = ' '.join('1' if d == m else '0' for d in range(nin))
-            lines.append(f'itp.miscgrad TOL {m} | {xs}'); post.append(('g', case, mode, kinds[k], band[k], p, (m,), got, hlist, ymax / delta[k][m]))
-            lines.append(f'itp.miscabs TOL {kinds_m} | {xs}'); post.append(('abs',))
+            lines.append(f'itp.miscgrad TOLG {m} | {xs}'); post.append(('g', case, mode, kinds[k], band[k], p, (m,), got, hlist, ymax / delta[k][m]))
+            lines.append(f'itp.miscabs TOLG {kinds_m} | {xs}'); post.append(('abs',))
             if case['poly']:
                 for oi, o in enumerate(out_names):
                     lines.append(f'poly.grad {o} {m} | {xs}'); post.append(('truth', oi))
@@ -191,9 +191,9 @@ def run_case(ctx, res, case, lines, post):
                 H = [np.asarray(hes[o]) for o in out_names]
                 got = [float(h[k, m, n]) for h in H]
                 kinds_mn = ' '.join(('2' if d == m else '0') if m == n else ('1' if d in (m, n) else '0') for d in range(nin))
-                lines.append(f'itp.mischess TOL {m} {n} | {xs}')
+                lines.append(f'itp.mischess TOLH {m} {n} | {xs}')
                 post.append(('h', case, mode, kinds[k], band[k], p, (m, n), got, hlist, ymax / (delta[k][m] * delta[k][n])))
-                lines.append(f'itp.miscabs TOL {kinds_mn} | {xs}'); post.append(('abs',))
+                lines.append(f'itp.miscabs TOLH {kinds_mn} | {xs}'); post.append(('abs',))
                 if case['poly']:
                     for oi, o in enumerate(out_names):
                         lines.append(f'poly.hess {o} {m} {n} | {xs}'); post.append(('truth', oi))
@@ -230,11 +230,10 @@ def run(ctx: core.Ctx, only=None) -> core.Result:
         case = {k: (tuple(case[k]) if k in ('alpha_lim', 'beta_lim') else case.get(k)) for k in keys}
         with core.guarded(res, 'scenario-raised', case):
             run_case(ctx, res, case, lines, post)
-    t = core.try_driver(['itp.snaptol 1'], res, 'Gen.snapTol')
+    t = core.try_driver(['itp.snaptol 1', 'itp.snaptol 1 gradient', 'itp.snaptol 1 hessian'], res, 'Gen.snapTol*')
     if t is None:
         return fallback_oracle(ctx, res, post)
-    tol_out = t[0]
-    lines = [ln.replace(' TOL ', f' {tol_out} ') for ln in lines]
+    lines = [ln.replace(' TOLG ', f' {t[1]} ').replace(' TOLH ', f' {t[2]} ').replace(' TOL ', f' {t[0]} ') for ln in lines]
     out = core.try_driver(lines, res, 'Amisc.predictT/gradT/hessT')
     if out is None:
         return fallback_oracle(ctx, res, post)
